@@ -13,7 +13,7 @@ pub fn insert_op2(_g: &mut G, id: Id, k: KindTag, script: Script) -> Op {
             Op::InsertComposite { id, children, script }
         }
         KindTag::Transient => {
-            let child = if _g.rng.chance(2, 3) { ChildSpec::Sock } else { ChildSpec::Timer(Deadline::In(_g.rng.range(0, 20) * crate::gen::MS)) };
+            let child = if _g.rng.chance(1, 6) { ChildSpec::Eager } else if _g.rng.chance(2, 3) { ChildSpec::Sock } else { ChildSpec::Timer(Deadline::In(_g.rng.range(0, 20) * crate::gen::MS)) };
             Op::InsertTransient { id, child, from_default: _g.rng.chance(1, 5), script }
         }
         _ => Op::InsertPing { id, script },
@@ -21,6 +21,9 @@ pub fn insert_op2(_g: &mut G, id: Id, k: KindTag, script: Script) -> Op {
 }
 
 fn repl_spec(g: &mut G) -> ChildSpec {
+    if g.rng.chance(1, 8) {
+        return ChildSpec::Eager;
+    }
     match g.rng.below(6) {
         0 | 1 => ChildSpec::Timer(Deadline::In(g.rng.range(0, 20) * crate::gen::MS)),
         2 | 3 => ChildSpec::SameFd,
@@ -189,7 +192,9 @@ pub fn signal_op(g: &mut G) -> Option<Op> {
         10 | 11 | 12 => Op::Dispatch(Timeout::Zero),
         _ => {
             let s = g.rng.below(g.nsig) as u8;
-            if g.rng.chance(1, 3) {
+            if g.nsig > crate::sig::CHLD as u64 && g.rng.chance(1, 4) {
+                Op::SpawnChild
+            } else if g.rng.chance(1, 3) {
                 Op::Kill(s)
             } else {
                 Op::Raise(s)
